@@ -94,6 +94,7 @@ T_OnlyNamedChain == [][IsReset \/ OnlyNamedChainStep]_tvars
 T_AtMostOncePerWindow == [][IsReset \/ AtMostOncePerWindowStep]_tvars
 T_ForwardAgain == [][IsReset \/ ForwardAgainStep]_tvars
 T_NotRememberedIfNotSent == [][IsReset \/ NotRememberedIfNotSentStep]_tvars
+T_MemoryOnlyByRequests == [][IsReset \/ MemoryOnlyByRequestsStep]_tvars
 
 Finished == (l = Len(Trace) + 1 /\ ph = 0) => PrintT(<<"FINISHED", ToJson([lines |-> Len(Trace), rejected |-> rej])>>)
 =============================================================================
